@@ -47,8 +47,9 @@ type fs struct {
 func (fs *fs) Walk(ctx context.Context, target string, fn gofs.WalkDirFunc) error {
 	seenFiles := make(map[inodeKey]string)
 	return filepath.WalkDir(filepath.Join(fs.root, target), func(path string, dirEntry gofs.DirEntry, walkErr error) (retErr error) {
+		isRoot := false
 		defer func() {
-			if retErr != nil && isNotExist(retErr) {
+			if retErr != nil && isNotExist(retErr) && !isRoot {
 				// the entry vanished: skip it. SkipDir for a non-directory
 				// would skip the rest of the containing directory as well.
 				retErr = nil
@@ -63,9 +64,11 @@ func (fs *fs) Walk(ctx context.Context, target string, fn gofs.WalkDirFunc) erro
 		if err != nil {
 			return err
 		}
-		// Skip root
+		// Skip root: it is not reported, but a root that cannot be read is
+		// an error of the walk, not an empty tree
 		if path == "." {
-			return nil
+			isRoot = true
+			return walkErr
 		}
 
 		var entry gofs.DirEntry
